@@ -16,6 +16,7 @@ import (
 )
 
 type astCallExpr = ast.CallExpr
+type astIdent = ast.Ident
 
 type Engine struct {
 	prog          *ssa.Program
@@ -87,6 +88,9 @@ func (e *Engine) setDB(db *ContractDB) {
 		case "bytestream":
 			e.ghostSorts[name] = "(Array Int Int)"
 			e.ghostTypes[name] = byteStreamT
+		case "u32stream":
+			e.ghostSorts[name] = "(Array Int Int)"
+			e.ghostTypes[name] = u32StreamT
 		default:
 			e.ghostSorts[name] = "Int"
 			e.ghostTypes[name] = mathIntT
